@@ -1,5 +1,6 @@
 import GoRes.Model.Index
 import GoRes.Model.StoreMap
+import GoRes.Model.Lock
 import GoRes.Driver.Wire
 /-! Driver for the `idx` domain (C11 map semantics, C12 rebuild, C13 index queries, C14 query
 change notifications): a store of values `{K, G}` with two indexes
@@ -130,10 +131,100 @@ def mutate (st : St) (id : Bytes) (op : StoreMap.Op Val) : String × St × Strin
   | .err e => (encErr e, st, match e with | .duplicate => "dup" | .notFound => "missing" | .wrongType => "wrongtype" | .veto => "veto" | .noId => "noid")
   | _ => ("bad", st, "bad")
 
+/-! ### several operations in one write transaction; lock exclusion; concurrent histories -/
+
+def splitOn (c : Nat) (s : Str) : List Str :=
+  let rec go : Str → Str → List Str
+    | [], cur => [cur.reverse]
+    | x :: r, cur => if x = c then cur.reverse :: go r [] else go r (x :: cur)
+  go s []
+
+/-- a step of a transaction: `V`, `E`, `C:k:g`, `U:k:g`, `D` -/
+def parseStep (s : Str) : Option (StoreMap.Op Val) :=
+  match splitOn 58 s with
+  | [c] => if c = str "V" then some .value else if c = str "E" then some .exists_ else if c = str "D" then some .delete else none
+  | [c, k, g] => if c = str "C" then some (.create ⟨k, g⟩ true) else if c = str "U" then some (.update ⟨k, g⟩ true) else none
+  | _ => none
+
+def encRes : StoreMap.Res Val → String
+  | .ok => "ok"
+  | .err e => encErr e
+  | .val v => "val:" ++ encOptVal (some v)
+  | .bool b => encBool b
+
+/-- the steps of one write transaction on `id`, in order -/
+def runTxn (st : St) (id : Bytes) (steps : List (StoreMap.Op Val)) : St × List String × List (StoreMap.Cb Val) :=
+  steps.foldl (fun (acc : St × List String × List (StoreMap.Cb Val)) op =>
+    let (s, outs, cbs) := acc
+    let (r, c, s') := StoreMap.exec (V := Val) ⟨s.vals, s.veto, false⟩ id op
+    ({ s with vals := s'.vals, tasks := s.tasks ++ c.map (fun cb => ⟨cb.id, cb.before, cb.after⟩) }, outs ++ [encRes r], cbs ++ c)) (st, [], [])
+
+/-- replay of an observed concurrent history (events ordered by stamps taken inside the
+transactions): every result and every callback must be what the per-id map gives when the
+operations are applied one at a time in that order -/
+def replayHist (entries : List Str) : Option (Nat × String) :=
+  let rec go (i : Nat) (es : List Str) (vals : List (Bytes × Val)) (pending : List (Bytes × String)) : Option (Nat × String) :=
+    match es with
+    | [] => if pending.isEmpty then none else some (i, "callback-without-a-mutation")
+    | e :: rest =>
+      match splitOn 124 e with
+      | [k, id, ba] =>
+        if k = str "cb" then go (i + 1) rest vals (pending ++ [(id, Str.show ba)]) else some (i, "unparsable-entry")
+      | [k, id, op, res] =>
+        if k ≠ str "op" then some (i, "unparsable-entry") else
+        match parseStep op with
+        | none => some (i, "unparsable-operation")
+        | some o =>
+          let (r, cbs, s') := StoreMap.exec (V := Val) ⟨vals, false, false⟩ id o
+          let expectedCbs := cbs.map fun cb => encOptVal cb.before ++ ">" ++ encOptVal cb.after
+          let mine := (pending.filter (·.1 = id)).map (·.2)
+          if encRes r ≠ Str.show res then some (i, s!"result-{Str.show res}-where-the-map-gives-{encRes r}")
+          else if mine ≠ expectedCbs then some (i, "callbacks-" ++ ",".intercalate mine ++ "-where-the-map-gives-" ++ ",".intercalate expectedCbs)
+          else go (i + 1) rest s'.vals (pending.filter (·.1 ≠ id))
+      | _ => some (i, "unparsable-entry")
+  go 0 entries [] []
+
+def runExt (st : St) (args : List Str) : Option (St × String × String × String) :=
+  match args with
+  | c :: rest =>
+    if c = str "txn" then
+      match rest with
+      | id :: steps =>
+        match steps.mapM parseStep with
+        | none => some (st, "bad-op", "-", "bad")
+        | some ops =>
+          let (st', outs, cbs) := runTxn st id ops
+          let o := ";".intercalate outs ++ " cbs=" ++ (if cbs.isEmpty then "-" else ";".intercalate (cbs.map fun cb => cbStr cb.id cb.before cb.after))
+          some (st', o, o, "txn" ++ (if cbs.length > 1 then "-multi" else "") ++
+            (if ops.any (fun o => match o with | .value => true | _ => false) then "-read" else ""))
+      | _ => some (st, "bad-op", "-", "bad")
+    else if c = str "excl" then
+      match rest with
+      | [held, cont, same] =>
+        -- badgerstore: a read/write lock per id; mockstore: one read/write lock for the store (`Model/Lock.lean`)
+        let m := if st.mock then !Lock.grantedMock (held = str "W") (cont = str "W")
+                 else !Lock.grantedBadger (held = str "W") (cont = str "W") (same = str "same")
+        -- C11: while a transaction on an id is open no write transaction on that id makes progress
+        let spec := if same = str "same" ∧ cont = str "W" then "blocked:T" else "-"
+        some (st, "blocked:" ++ encBool m, spec, "excl-" ++ Str.show held ++ Str.show cont ++ "-" ++ Str.show same)
+      | _ => some (st, "bad-op", "-", "bad")
+    else if c = str "hist" then
+      match rest with
+      | kind :: entries =>
+        match replayHist entries with
+        | none => some (st, "ok", "?ok", "hist-" ++ Str.show kind)
+        | some (i, why) => some (st, s!"reject:{i}:{why}", s!"?viol:history-is-not-a-per-id-sequential-history-at-{i}:{why}", "hist-rejected")
+      | _ => some (st, "bad-op", "-", "bad")
+    else none
+  | _ => none
+
 def hasNul (st : St) : Bool := st.vals.any (fun e => e.2.k.contains 0 || e.2.g.contains 0 || e.1.contains 0)
 
 def run (st : St) (args : List Str) (impl : String) : St × String × String × String :=
   let bad := (st, "bad-op", "-", "bad")
+  match runExt st args with
+  | some r => r
+  | none =>
   match args with
   | [c] =>
     if c = str "reset" then ({}, "ok", "-", "triv-reset")
